@@ -29,6 +29,8 @@ type stIter struct {
 	q        *stQuery
 	size     int
 	tok      string
+	from     int // index of the fetch that returned tok
+	started  bool
 }
 
 type stGen struct {
@@ -665,7 +667,8 @@ func (g *stGen) startIter(net int) bool {
 func (g *stGen) stepIter() {
 	s := g.iter
 	q := *s.q
-	it := &stItem{kind: s.kind, net: s.net, via: s.via, q: &q, size: s.size, tok: s.tok}
+	it := &stItem{kind: s.kind, net: s.net, via: s.via, q: &q, size: s.size, tok: s.tok, refSet: s.started, ref: s.from}
+	idx := g.c.n
 	g.c.run(it)
 	g.c.env.o.Count("iter:fetch")
 	if it.status != "ok" || it.next == "" {
@@ -673,7 +676,7 @@ func (g *stGen) stepIter() {
 		g.c.env.o.Count("iter:end:" + it.status)
 		return
 	}
-	s.tok = it.next
+	s.tok, s.from, s.started = it.next, idx, true
 }
 
 type stWeights map[string]int
